@@ -778,6 +778,11 @@ func (s *State) GetReverseStateDiff(
 			value := felt.Zero
 			if blockNumber > 0 {
 				oldValue, err := s.ContractStorageAt(&addr, &key, blockNumber-1)
+				if errors.Is(err, ErrCheckHeadState) {
+					// nothing was logged after blockNumber-1 (e.g. this block wrote zero to a
+					// never-written slot): the value has not changed since, the head has it
+					oldValue, err = s.ContractStorage(&addr, &key)
+				}
 				if err != nil {
 					return core.StateDiff{}, err
 				}
@@ -794,6 +799,9 @@ func (s *State) GetReverseStateDiff(
 		if blockNumber > 0 {
 			var err error
 			oldNonce, err = s.ContractNonceAt(&addr, blockNumber-1)
+			if errors.Is(err, ErrCheckHeadState) {
+				oldNonce, err = s.ContractNonce(&addr)
+			}
 			if err != nil {
 				return core.StateDiff{}, err
 			}
@@ -807,6 +815,9 @@ func (s *State) GetReverseStateDiff(
 		if blockNumber > 0 {
 			var err error
 			classHash, err = s.ContractClassHashAt(&addr, blockNumber-1)
+			if errors.Is(err, ErrCheckHeadState) {
+				classHash, err = s.ContractClassHash(&addr)
+			}
 			if err != nil {
 				return core.StateDiff{}, err
 			}
